@@ -12,10 +12,12 @@ func init() {
 		c.Rep.Rule = "struct-level Validate and VerifyAssertionConditions cases with the clock placed at offsets {0, +-1ns, +-1s, +-1h, +-0.5s} from each bound, random zone/fraction renderings, missing and malformed bounds; non-trivial = clock within 1s of a bound or error case; distinct by (offsets, error, position)"
 		runValidateStruct(c, c.N(700, 15000), true)
 		runConditionsStruct(c, c.N(800, 25000), true)
+		runResponseStream(c, c.N(160, 3000), "C05")
 	}
 	runners["C06"] = func(c *Ctx) {
 		c.Rep.Rule = "struct-level VerifyAssertionConditions cases: 0..4 AudienceRestrictions x 0..4 Audience values from {exact, near-miss (case, slash, space, prefix), empty, other}, configured audience incl. empty, OneTimeUse, ProxyRestriction with Count in {0,1,3,-1,7,2^31,-2^31} and 0..3 audiences; non-trivial = at least one restriction; distinct by restriction shape"
 		runConditionsStruct(c, c.N(2000, 50000), false)
+		runResponseStream(c, c.N(160, 3000), "C06")
 	}
 }
 
